@@ -27,5 +27,15 @@ Section Oracle.
   (* r = compute_complement o nr  must keep every value of o that is not in nr *)
   Definition cex_complement (o nr r : nat) : option value :=
     find (fun v => negb (mem v nr) && negb (mem v r)) (en o).
+  (* r = filter_variants_by_field parent idx must (after a runtime test of field idx against `must`
+     succeeded) must keep every value of parent whose field idx is a value of `must` *)
+  Definition cex_filter (parent idx must r : nat) : option value :=
+    find (fun v => match v with
+                   | VTup _ fs => match nth_error fs idx with
+                                  | Some f => mem (snd f) must && negb (mem v r)
+                                  | None => false
+                                  end
+                   | _ => false
+                   end) (en parent).
   Definition count (t : nat) : nat := length (en t).
 End Oracle.
